@@ -134,17 +134,25 @@ void on_free(void *p, void *frame) {
 }  // namespace
 
 extern "C" {
+// The simulated machine refuses any single allocation above 1 GiB (deterministically, whatever the real host
+// could provide): what the library does with a request of 16 GiB must not depend on the sandbox's free memory.
+static const size_t kMaxAlloc = (size_t)1 << 30;
+uint64_t g_refused_huge = 0;
+
 __attribute__((noinline)) void *__wrap_malloc(size_t n) {
+    if (g_in_lib > 0 && n > kMaxAlloc) { g_refused_huge++; return nullptr; }
     void *p = __real_malloc(n);
     if (g_in_lib > 0) record(p, n, __builtin_frame_address(0));
     return p;
 }
 __attribute__((noinline)) void *__wrap_calloc(size_t a, size_t b) {
+    if (g_in_lib > 0 && (a > kMaxAlloc || b > kMaxAlloc || a * b > kMaxAlloc)) { g_refused_huge++; return nullptr; }
     void *p = __real_calloc(a, b);
     if (g_in_lib > 0) record(p, a * b, __builtin_frame_address(0));
     return p;
 }
 __attribute__((noinline)) void *__wrap_realloc(void *old, size_t n) {
+    if (g_in_lib > 0 && n > kMaxAlloc) { g_refused_huge++; return nullptr; }
     int ses = -2;
     if (old && g_live && !g_busy) {
         g_busy = true;
@@ -194,4 +202,5 @@ size_t ledger_live_count() { return g_live ? g_live->size() : 0; }
 std::vector<LedgerEvent> ledger_take_events() { std::vector<LedgerEvent> e; if (g_events) e.swap(*g_events); return e; }
 uint64_t ledger_lib_allocs() { return g_allocs; }
 uint64_t ledger_lib_frees() { return g_frees; }
+uint64_t ledger_refused_huge() { return g_refused_huge; }
 std::string symbolize(const void *addr) { return sym_of(addr); }
